@@ -283,6 +283,14 @@ void run_C02(void) {
         if (!th && ALL_N[ni] > 4096) continue;
         concurrent_case(ALL_N[ni], native, ALL_N[ni] <= 64 ? 8 : 4, rep);
       }
+  // every row count 1..320 (no value of a size parameter is special to the property; blocked loops have their own ideas)
+  for (uint64_t nrows = 1; nrows <= 320; nrows++) {
+    const uint64_t N = (nrows & 1) ? 8 : 16, ncols = 1 + nrows % 3;
+    for (int native = 1; native >= 0; native--) {
+      if (!th && !native && (nrows % 3)) continue;
+      one_case(N, nrows, ncols, nrows, ncols, (unsigned)nrows % 3, native, 0, 2000);
+    }
+  }
   // sampled large shapes (nrows up to 40, ncols up to 12)
   {
     unsigned n = th ? 3000 : 120;
